@@ -58,7 +58,7 @@ def arg_types(p, shape):
     out = []
     for c in shape:
         if c[0] == 'list':
-            out.append(ListType(RealType(aty)))
+            out.append(ListType(RealType(aty), c[1]))          # the length is known: arrays=True may then choose std::array
         else:
             out.append(RealType(aty))
     return out
@@ -144,7 +144,23 @@ def make_eval(fdecls, S, mode):
     return CppEval(fdecls, prim, num_helpers(), make_ieee, mode)
 
 
+def cpp_args(fdecl, args):
+    """host arguments for the compiled entry: a list parameter of shared_ptr type receives a fresh handle"""
+    from spec.cpp_eval import Ptr
+    params = [n for n in fdecl.get('inner', []) if n.get('kind') == 'ParmVarDecl']
+    out = []
+    for prm, a in zip(params, args):
+        if isinstance(a, list):
+            a = list(a)
+            if 'shared_ptr' in prm['type']['qualType']:
+                a = Ptr(a)
+        out.append(a)
+    return out
+
+
 def norm(v):
+    if type(v).__name__ == 'Ptr':
+        v = v.obj
     if isinstance(v, (list, tuple)):
         return tuple(norm(x) for x in v)
     return v
@@ -189,7 +205,7 @@ def run_task(task):
                 continue
             ev = make_eval(fdecls, S, mode)
             try:
-                got = ('ok', norm(ev.call(p['entry'], [a if not isinstance(a, list) else list(a) for a in sa.build()])))
+                got = ('ok', norm(ev.call(p['entry'], cpp_args(fdecls[p['entry']], sa.build()))))
             except Unsupported as ex:
                 outside.add(lab)
                 notes.append('outside the C++ evaluator (%s): %s' % (lab, ex))
@@ -252,7 +268,7 @@ def judge_concrete(task, args):
             problems.append(('does-not-compile', 'clang rejects the emitted text (%s): %s' % (lab, fdecls[1][-200:]))); continue
         ev = make_eval(fdecls, S, mode)
         try:
-            got = norm(ev.call(p['entry'], [a if not isinstance(a, list) else list(a) for a in args]))
+            got = norm(ev.call(p['entry'], cpp_args(fdecls[p['entry']], args)))
         except Unsupported as ex:
             info.setdefault('outside', []).append('%s: %s' % (lab, ex)); continue
         except Stuck as ex:
